@@ -1402,7 +1402,9 @@ func runNesting(p *Program, sp *Spec, c *Collector, ns NestingSpec) {
 				_, wExit := a.locals(m)
 				rEnter, _ := a.locals(fn)
 				for g := range wExit {
-					if _, ok := rEnter[g]; ok {
+					// a counter, not a flag: a flag is cleared by the inner Exit while the outer construct is still open
+					bt, isBasic := g.Type().Underlying().(*types.Pointer).Elem().Underlying().(*types.Basic)
+					if _, ok := rEnter[g]; ok && isBasic && bt.Info()&types.IsInteger != 0 {
 						tested = true
 					}
 				}
